@@ -4,7 +4,7 @@ from fractions import Fraction
 from pcv import core, capio, gen
 
 P = "PcVerif.Props.C02."
-THEOREMS = [P + t for t in ["microdvd_constants_pinned", "fields_in_range", "format_denotes", "vtt_timestamp_denotes", "vtt_hours_omitted_iff",
+THEOREMS = [P + t for t in ["sami_plan_entries", "microdvd_constants_pinned", "fields_in_range", "format_denotes", "vtt_timestamp_denotes", "vtt_hours_omitted_iff",
                             "sami_sync_plan", "sami_single_language_plan"]]
 H24 = 86400 * 10 ** 6
 
